@@ -16,3 +16,7 @@ PROPS = {
         fuzz("fuzz", "FuzzC20Phrase", 240),
     ]),
 }
+
+PROPS["C02"] = dict(pkg="chain", level="exploration", stages=[
+    rapid("rapid", "TestC02", dict(shards=16, checks=120), dict(shards=16, checks=4000, timeout=7000)),
+])
